@@ -11,7 +11,7 @@ CHECKS = {
     "C01": (
         "reference-model monitor: brute-force (Ped)MEC (all 2^R read bipartitions x Viterbi over transmissions) run "
         "next to the real PedigreeDPTable on generated and bounded-exhaustive instances; witness re-costing; tie-contract "
-        "check; ASan/UBSan lane",
+        "check; ASan/UBSan lane; valgrind-memcheck lane (uninitialised values) in the thorough tier",
         "Tens of thousands of generated instances (and every instance of a small bounded domain in the thorough tier) "
         "are solved by the real C++ solver and by an independent enumeration; cost, witness, tie flags and feasibility must "
         "agree. Held on the instances executed.",
@@ -21,7 +21,7 @@ CHECKS = {
     ),
     "C19": (
         "reference-model monitors (combinatorial number system; Wagner-Fischer) over exhaustively enumerated small "
-        "domains and random inputs up to the implementation limits; ASan/UBSan lane",
+        "domains and random inputs up to the implementation limits; ASan/UBSan lane; valgrind-memcheck lane (thorough)",
         "All genotypes up to ploidy 6 x 6 alleles and all string pairs over small alphabets up to a bounded length (every "
         "band width) are executed on the real code and compared with the definitions.",
         "Trusted: math.comb based index formula and a textbook Levenshtein DP (self-tested against the recursive definition).",
@@ -69,7 +69,7 @@ CHECKS = {
     "C11": (
         "reference-model monitor: own intersection blocks + definitional error counts (exhaustive permutation DP for ploidy 3-4) "
         "vs. whatshap compare's TSV outputs; identity, metamorphic (haplotype relabelling) and auxiliary-file consistency monitors; "
-        "ASan/UBSan lane",
+        "ASan/UBSan lane; valgrind-memcheck lane (thorough)",
         "Thousands of generated pairs/triples of phasings (ploidy 2-4, all block structures, planted switch runs) are compared by "
         "the real command; every pairwise row, the longest-block file, the BED file and the multiway histogram are judged.",
         "Trusted: the definitional oracle; for ploidy > 2 only the minimal joint sum is judged.",
@@ -85,7 +85,7 @@ CHECKS = {
     "C06": (
         "by-construction oracle: reads generated as exact haplotype copies with every CIGAR shape are passed through the real "
         "ReadSetReader.read; the allele recorded per (fragment, variant) is compared with the haplotype's allele for fully covered "
-        "variants and must be absent for non-overlapping ones; ASan/UBSan lane",
+        "variants and must be absent for non-overlapping ones; ASan/UBSan lane; valgrind-memcheck lane (thorough)",
         "Hundreds of thousands of (read, variant) pairs per run over all variant kinds, clips, =/X, N skips, hidden unrelated "
         "variants, contig ends and mate layouts, with and without reference.",
         "Trusted: the simulator's left-normalisation and shift-range computation; 'fully covered' = footprint + shift range + 1 base each side.",
@@ -94,7 +94,7 @@ CHECKS = {
     "C08": (
         "reference-model monitor: plain forward-backward by enumeration of all read-side vectors (float64) next to the real "
         "GenotypeDPTable; offline GT/GL/GQ consistency checker on `whatshap genotype` output with the core table interposed; "
-        "ASan/UBSan lane",
+        "ASan/UBSan lane; valgrind-memcheck lane (thorough)",
         "Thousands of HMM instances (single, trio, quartet; all weight/prior/recombination strata) agree with the model to 1e-9; "
         "every call of hundreds of end-to-end runs obeys the GT/GL/GQ rule and matches what the core returned.",
         "Trusted: the model statement (self-tested against explicit path enumeration); float32 GL storage tolerance 1e-3.",
@@ -132,7 +132,7 @@ CHECKS = {
     "C07": (
         "post-condition oracle on readselection's result + invariant/temporal/conservation monitors on the interposed "
         "coverage monitor (cap after every insertion, check-before-insert, exactly-once charging) over generated and "
-        "bounded-exhaustive read sets; ASan/UBSan lane",
+        "bounded-exhaustive read sets; ASan/UBSan lane; valgrind-memcheck lane (thorough)",
         "Thousands of generated read sets and every multiset of <=4 reads over 4 variants are run through the real "
         "selection with the coverage-monitor class replaced by a recording subclass; cap, maximality and the charging "
         "discipline are judged on every execution.",
@@ -166,7 +166,7 @@ CHECKS = {
     ),
     "C18": (
         "reference-model monitors (dict heap model, BFS components) + icontract forest invariant over "
-        "bounded-exhaustive and random operation histories; ASan/UBSan lane",
+        "bounded-exhaustive and random operation histories; ASan/UBSan lane; valgrind-memcheck lane (thorough)",
         "Every history up to a stated depth over a 3-item/3-score domain and thousands of random histories are "
         "executed on the real Cython queue / Python union-find while a model checks every return value; held on "
         "what was executed, nothing more.",
